@@ -1,29 +1,170 @@
 // Package verif holds the intrinsics that the symbolic executor (gosmt)
-// intercepts. Natively they are ordinary functions so that harnesses compile
-// and replay tests can link against them.
+// intercepts by name. Natively they are ordinary functions driven by a model
+// file, so that the very same harness can be replayed against the real,
+// compiled go-cvss: Nondet*/Havoc return the values of the solver's model,
+// Assume aborts the replay when the model does not satisfy an assumption,
+// Assert records a failure.
 package verif
 
+import (
+	"encoding/json"
+	"fmt"
+	"math"
+	"os"
+	"reflect"
+	"unsafe"
+)
+
+type model struct {
+	Harness string                    `json:"harness"`
+	Values  map[string]json.Number    `json:"values"`
+	Tables  map[string]map[string]int `json:"tables"`
+}
+
+var (
+	cur      *model
+	Failures []string
+	Observed = map[string]string{}
+	// AssumeFailed is set when the model violates an Assume (replay not valid).
+	AssumeFailed bool
+)
+
+type assumeAbort struct{}
+
+// LoadModel reads a model (JSON written by the check driver).
+func LoadModel(path string) error {
+	b, err := os.ReadFile(path)
+	if err != nil {
+		return err
+	}
+	return LoadModelBytes(b)
+}
+
+func LoadModelBytes(b []byte) error {
+	m := &model{}
+	if err := json.Unmarshal(b, m); err != nil {
+		return err
+	}
+	cur = m
+	Failures = nil
+	AssumeFailed = false
+	Observed = map[string]string{}
+	return nil
+}
+
+// Run executes a harness function under the loaded model and reports
+// ("ok" | "violated" | "assume-failed" | "panic: ...").
+func Run(f func()) (status string) {
+	defer func() {
+		if r := recover(); r != nil {
+			if _, ok := r.(assumeAbort); ok {
+				status = "assume-failed"
+				return
+			}
+			status = fmt.Sprintf("panic: %v", r)
+		}
+	}()
+	f()
+	if len(Failures) > 0 {
+		return "violated"
+	}
+	return "ok"
+}
+
+func val(name string) (uint64, bool) {
+	if cur == nil {
+		return 0, false
+	}
+	n, ok := cur.Values[name]
+	if !ok {
+		return 0, false
+	}
+	var u uint64
+	if _, err := fmt.Sscan(string(n), &u); err != nil {
+		return 0, false
+	}
+	return u, true
+}
+
 // NondetString returns an arbitrary byte string of length <= maxLen.
-// maxLen < 0: arbitrary length, only comparisons with short strings allowed.
-func NondetString(name string, maxLen int) string { return "" }
+// maxLen < 0: arbitrary length, only the first -maxLen bytes are explicit
+// (the executor only allows comparisons with short strings on it).
+func NondetString(name string, maxLen int) string {
+	l, _ := val(name + "_len")
+	n := int(int64(l))
+	if maxLen >= 0 && n > maxLen {
+		n = maxLen
+	}
+	if n < 0 {
+		n = 0
+	}
+	if n > 4096 {
+		n = 4096
+	}
+	b := make([]byte, n)
+	for i := range b {
+		v, ok := val(fmt.Sprintf("%s_b%d", name, i))
+		if ok {
+			b[i] = byte(v)
+		} else {
+			b[i] = 'Z' // byte not constrained by the model
+		}
+	}
+	return string(b)
+}
 
 // NondetUint8 returns an arbitrary byte.
-func NondetUint8(name string) uint8 { return 0 }
+func NondetUint8(name string) uint8 { v, _ := val(name); return uint8(v) }
 
 // NondetInt returns an arbitrary int in [lo, hi].
-func NondetInt(name string, lo, hi int) int { return lo }
+func NondetInt(name string, lo, hi int) int {
+	v, _ := val(name)
+	if hi-lo < 256 {
+		return lo + int(uint8(v))
+	}
+	return int(int64(v))
+}
 
 // NondetBool returns an arbitrary bool.
-func NondetBool(name string) bool { return false }
+func NondetBool(name string) bool { v, _ := val(name); return v != 0 }
 
 // NondetFloat64 returns an arbitrary float64 bit pattern.
-func NondetFloat64(name string) float64 { return 0 }
+func NondetFloat64(name string) float64 { v, _ := val(name); return math.Float64frombits(v) }
+
+// Havoc makes every scalar field of *p (a pointer to a struct of uint8
+// fields) arbitrary.
+func Havoc(name string, p any) {
+	rv := reflect.ValueOf(p).Elem()
+	rt := rv.Type()
+	base := unsafe.Pointer(rv.UnsafeAddr())
+	for i := 0; i < rt.NumField(); i++ {
+		f := rt.Field(i)
+		v, _ := val(name + "_" + f.Name)
+		switch f.Type.Kind() {
+		case reflect.Uint8:
+			*(*uint8)(unsafe.Add(base, f.Offset)) = uint8(v)
+		case reflect.Bool:
+			*(*bool)(unsafe.Add(base, f.Offset)) = v != 0
+		default:
+			panic("verif.Havoc: unsupported field kind " + f.Type.String())
+		}
+	}
+}
 
 // Assume restricts the inputs considered from here on.
-func Assume(c bool) {}
+func Assume(c bool) {
+	if !c {
+		AssumeFailed = true
+		panic(assumeAbort{})
+	}
+}
 
 // Assert states a proof obligation.
-func Assert(c bool, label string) {}
+func Assert(c bool, label string) {
+	if !c {
+		Failures = append(Failures, label)
+	}
+}
 
 // Unwind sets the loop unrolling bound for loops whose trip count is not
 // concrete (checked by an unwinding assertion).
@@ -31,10 +172,16 @@ func Unwind(n int) {}
 
 // Table looks a key up in an exact oracle table computed from the
 // specification by /verif/spec (exact rationals, no floats).
-func Table(name string, key int) int { return 0 }
+func Table(name string, key int) int {
+	if cur != nil {
+		if t, ok := cur.Tables[name]; ok {
+			if v, ok := t[fmt.Sprint(key)]; ok {
+				return v
+			}
+		}
+	}
+	panic(fmt.Sprintf("verif.Table: no entry %s[%d] in the replay model", name, key))
+}
 
 // Observe records a named value for counterexample replay and evidence.
-func Observe(name string, v any) {}
-
-// Havoc makes every scalar field of *p (a pointer to a struct) arbitrary.
-func Havoc(name string, p any) {}
+func Observe(name string, v any) { Observed[name] = fmt.Sprint(v) }
